@@ -124,13 +124,16 @@ CLAIMS = {
                 'Direct oracle: every generated path evaluated in both modes with recording functions (values, order, errors, argument logs).',
         'note': NOTE_COMMON, 'technique': 'Coq proof on the specification (mutual induction) + paired-mode oracle + correspondence'},
     'C14': {
-        'text': 'PARTIAL. Proved per function node, with "the values selected before it" given by the specification: a filter function is '
-                'called exactly once with the plain value it is handed and its result replaces it; an aggregate is called exactly once iff '
-                'its parameter path selects something, with ALL selected values (or the elements of the single array of a single-valued '
-                'path), and its result becomes the single value; failure yields ErrorFunctionFailed naming the node. With '
-                'C08_compose_same_root this gives once-per-value in result order. Not proved as one statement: the global call log of a '
-                'retrieval. Tie: recorded argument logs vs the model on every case + direct protocol oracle on the real library.',
-        'note': NOTE_COMMON + EVAL_HYP, 'technique': 'Coq proofs per function node over model + specification; recording-function oracle + correspondence'},
+        'text': 'C14_call_log (coq/Prop_C14.v, SpecCalls.v): for every well-formed tree whose filters contain no user function, the call '
+                'log of a whole retrieval is exactly the log the specification prescribes — one filter-function call per cursor '
+                'reaching the node, one aggregate call per evaluation whose parameter selects something, depth-first in result order; '
+                'C14_filter_function_once_per_value (P.f(): once per value of P, in order, with that value); '
+                'C14_filter_function_node / C14_aggregate_node (plain value in, result replaces it; aggregate gets ALL values or the '
+                'elements of the single array; not called when nothing is selected; failure names the node). The driver also '
+                'compares the model call log with the specification call log on every generated case. Functions inside filter operands '
+                '(short-circuited by design) are outside the theorem and compared with the model call by call; direct protocol oracle '
+                'on the real library.',
+        'note': NOTE_COMMON + EVAL_HYP, 'technique': 'Coq refinement proof of the call log (mutual induction) + recording-function oracle + correspondence'},
     'C15': {
         'text': 'PARTIAL. Proved: the ranking rule of addDeepestError (the selected error is a candidate; deeper replaces; shallower never; at '
                 'equal depth a type mismatch yields, member/function errors are kept) and what single-valued steps report (kind, own text, '
